@@ -260,7 +260,21 @@ func (x *Exec) havocCall(st *State, sig *types.Signature, hint string) Val {
 		old Term
 	}
 	var keeps []kept
+	// "opt writers f, g": calls of these (unknown) functions are the ones that fill the protected
+	// locations (e.g. a decoder writing into a local struct): nothing is kept across them
+	isWriter := false
+	if x.fc != nil && x.fc.Opts["writers"] != "" {
+		for _, w := range strings.Split(x.fc.Opts["writers"], ",") {
+			w = strings.TrimSpace(w)
+			if w != "" && (hint == w || strings.HasSuffix(hint, "."+w)) {
+				isWriter = true
+			}
+		}
+	}
 	for _, t := range x.protect {
+		if isWriter {
+			break
+		}
 		if t.all {
 			// all(T.f): the whole map survives
 			keeps = append(keeps, kept{t, vc.heapGet(st, t.key, t.sort)})
